@@ -96,9 +96,8 @@ func c03InDomain(v interface{}, top bool) bool {
 				case map[string]interface{}, []interface{}:
 					return false
 				}
-				if isAttr && e == nil {
-					return false
-				}
+				// (a null attribute entry: the statement speaks of "scalar" attribute entries and of null becoming an
+				// empty *element*; the encoders refuse it with an error, which is accepted - see c03HasNullAttr)
 				continue
 			}
 			if !c03InDomain(e, false) {
@@ -238,7 +237,31 @@ func c03Shape(v interface{}) string {
 	return strings.Join(f, ",")
 }
 
+// c03HasNullAttr: a '-'-prefixed entry whose value is null. Whether that is an attribute the encoders must write
+// the property does not say; an error is accepted, a nil error with output that is not well formed is not.
+func c03HasNullAttr(v interface{}) bool {
+	switch t := v.(type) {
+	case map[string]interface{}:
+		for k, e := range t {
+			if strings.HasPrefix(k, "-") && e == nil {
+				return true
+			}
+			if c03HasNullAttr(e) {
+				return true
+			}
+		}
+	case []interface{}:
+		for _, e := range t {
+			if c03HasNullAttr(e) {
+				return true
+			}
+		}
+	}
+	return false
+}
+
 func c03Check(c *Ctx, v interface{}, enc string, tags []string, esc bool) (nontrivial bool) {
+	nullAttr := c03HasNullAttr(v)
 	exp := c03Expected(v, enc, tags)
 	if exp == nil {
 		return false
@@ -265,6 +288,9 @@ func c03Check(c *Ctx, v interface{}, enc string, tags []string, esc bool) (nontr
 		c.Violate(enc, "input-modified", shape, cas, nil, fmt.Sprintf("value=%s", before))
 	}
 	if err != nil {
+		if nullAttr {
+			return false // refused with an error: accepted for a null attribute entry
+		}
 		c.Violate(enc, "error-on-valid-input", shape, cas, nil, fmt.Sprintf("value=%s err=%v", jsonOf(v), err))
 		return
 	}
@@ -272,6 +298,9 @@ func c03Check(c *Ctx, v interface{}, enc string, tags []string, esc bool) (nontr
 	if werr := wellFormed(x); werr != nil {
 		c.Violate(enc, "well-formed", shape, cas, nil, fmt.Sprintf("value=%s\n output=%s\n %v", jsonOf(v), x, werr))
 		return true
+	}
+	if nullAttr {
+		return true // accepted and well formed; what the attribute becomes is not prescribed
 	}
 	m, derr := mxj.NewMapXml(x)
 	c.S.Transitions++
@@ -285,7 +314,7 @@ func c03Check(c *Ctx, v interface{}, enc string, tags []string, esc bool) (nontr
 
 func c03Run(c *Ctx) {
 	mustBeDefault(c)
-	c.S.Rule = "cases = (value, encoder, tags, escaping): every JSON-shaped template with <= N nodes over keys {a, b, -x, #text} and leaves {\"s\", \" s \", \"\", 1, true, null} (lists 0-3 incl. nested and mixed, empty containers; attribute entries scalar non-null, text entries scalar incl. null) as multi-key root, single-key root (non-list value) and AnyXml argument (default and explicit tags); encoders Map.Xml, Map.XmlIndent, AnyXml, AnyXmlIndent, j2x.JsonToXml; a second family with strings of XML special characters under XMLEscapeChars(true); an attribute-heavy family (keys {a,-x,-xy,-z,#text}, two to three attributes per element, empty and non-empty values side by side); a typed-number family (int, int64, float32, uint8, uint64, json.Number, float64 with large and small exponents as element, attribute and text values, <= 4 nodes); a scale family (lists of 33-1025 scalars / maps, a map with 70 keys and 40 attributes, nesting depth 100, strings of 5000 bytes). Oracle: output well formed with exactly one root, and decoding it gives the Map the reference decode prescribes for the abstract document the encoding rules denote. Ascending and descending map order; returned bytes are retained and re-checked after later calls. non-trivial = in-domain value encoded."
+	c.S.Rule = "cases = (value, encoder, tags, escaping): every JSON-shaped template with <= N nodes over keys {a, b, -x, #text} and leaves {\"s\", \" s \", \"\", 1, true, null} (lists 0-3 incl. nested and mixed, empty containers; attribute entries scalar, a null attribute entry may be refused with an error but never yields malformed output, text entries scalar incl. null) as multi-key root, single-key root (non-list value) and AnyXml argument (default and explicit tags); encoders Map.Xml, Map.XmlIndent, AnyXml, AnyXmlIndent, j2x.JsonToXml; a second family with strings of XML special characters under XMLEscapeChars(true); an attribute-heavy family (keys {a,-x,-xy,-z,#text}, two to three attributes per element, empty and non-empty values side by side); a typed-number family (int, int64, float32, uint8, uint64, json.Number, float64 with large and small exponents as element, attribute and text values, <= 4 nodes); a scale family (lists of 33-1025 scalars / maps, a map with 70 keys and 40 attributes, nesting depth 100, strings of 5000 bytes). Oracle: output well formed with exactly one root, and decoding it gives the Map the reference decode prescribes for the abstract document the encoding rules denote. Ascending and descending map order; returned bytes are retained and re-checked after later calls. non-trivial = in-domain value encoded."
 	c.S.Assumptions = []string{"attribute and text entries never stand where an element name is needed (root key, AnyXml single-key list member): outside the property's valid-XML-name premise", "reference: value -> abstract document (harness/c03.go) -> reference decode (harness/ref_xml.go)"}
 	n, n2 := 5, 4
 	if c.Thorough {
